@@ -174,6 +174,11 @@ class GenericGen:
                 return self.scalar(depth + 1) ** r.choice(env.coords)
             return r.choice(env.sf) ** self.scalar(depth + 2)
         if k < 0.60:
+            if d > 1 and r.random() < 0.2:
+                # a factored sum in one slot, a scalar factor in the other (added after seeded change C08-8)
+                a = r.choice(list(env.sf) + [self.coef()]) * (self.vector(depth + 1) + self.vector(depth + 1))
+                b = r.choice(env.sf) * self.vector(depth + 1)
+                return C.dot(a, b) if r.random() < 0.5 else C.dot(b, a)
             return C.dot(self.vector(depth + 1), self.vector(depth + 1))
         if k < 0.68:
             return C.div(self.vector(depth + 1))
